@@ -383,7 +383,8 @@ async fn serve_origin(l: &Option<tokio::net::TcpListener>) {
 
 const TLS_SNIS: [&str; 5] = ["plain", "good-label", "bad-label", "label-on-unknown-host", "label-on-ping-host"];
 
-async fn tls_scenario(which: &str, auth: &str) -> Result<&'static str, String> {
+async fn tls_scenario(which: &str, auth: &str, to_canary: bool) -> Result<&'static str, String> {
+    let canary = door::start_canary().await;
     let sni = match which {
         "plain" => "m.t".to_string(),
         "good-label" => format!("{SNI_GOOD}.m.t"),
@@ -391,7 +392,7 @@ async fn tls_scenario(which: &str, auth: &str) -> Result<&'static str, String> {
         "label-on-unknown-host" => format!("{SNI_BAD}.zz.t"),
         _ => format!("{SNI_BAD}.p.t"),
     };
-    let cfg = Cfg { clients: vec![(USER.into(), PASS.into()), (USER2.into(), PASS2.into())], ping_hosts: vec!["p.t".into()], ..Cfg::default() };
+    let cfg = Cfg { clients: vec![(USER.into(), PASS.into()), (USER2.into(), PASS2.into())], ping_hosts: vec!["p.t".into()], allow_private: true, ..Cfg::default() };
     let world = make_world_with_auth(&cfg, Some(Arc::new(SniAware(RegistryBasedAuthenticator::new(&clients())))))?;
     let listener = tokio::net::TcpListener::bind("127.0.0.1:0").await.map_err(|e| e.to_string())?;
     let addr = listener.local_addr().unwrap();
@@ -413,7 +414,8 @@ async fn tls_scenario(which: &str, auth: &str) -> Result<&'static str, String> {
         let mut w = Box::pin(sock.write_all(&hello));
         door::until(&mut w, Duration::from_secs(5)).await;
     }
-    let mut spec = ReqSpec::connect("_check").with_auth(proxy_auth(auth));
+    let target = if to_canary { canary.addr.to_string() } else { "_check".to_string() };
+    let mut spec = ReqSpec::connect(&target).with_auth(proxy_auth(auth));
     spec.headers.push(("Authorization".into(), format!("Digest {AUTHZ}")));
     spec.headers.push(("Cookie".into(), format!("sid={COOKIE}")));
     let req = spec.h1_bytes();
@@ -477,13 +479,15 @@ async fn tls_scenario(which: &str, auth: &str) -> Result<&'static str, String> {
 // ------------------------------------------------------------------------------------------------
 
 async fn quic_scenario(which: &str, auth: &str) -> Result<&'static str, String> {
+    let canary = door::start_canary().await;
+    let canary_authority = canary.addr.to_string();
     let sni = match which {
         "plain" => "m.t".to_string(),
         "good-label" => format!("{SNI_GOOD}.m.t"),
         "bad-label" => format!("{SNI_BAD}.m.t"),
         _ => format!("{SNI_BAD}.zz.t"),
     };
-    let cfg = Cfg { clients: vec![(USER.into(), PASS.into()), (USER2.into(), PASS2.into())], ..Cfg::default() };
+    let cfg = Cfg { clients: vec![(USER.into(), PASS.into()), (USER2.into(), PASS2.into())], allow_private: true, ..Cfg::default() };
     let ep = super::cq::start_with_auth(cfg, Some(Arc::new(SniAware(RegistryBasedAuthenticator::new(&clients()))))).await?;
     let mut cl = super::quic::QuicClient::new(ep.addr, &super::quic::ClientOpts { sni, ..Default::default() })?;
     if !cl.handshake(Duration::from_secs(3)).await {
@@ -494,7 +498,7 @@ async fn quic_scenario(which: &str, auth: &str) -> Result<&'static str, String> 
         headers.push(("proxy-authorization".into(), String::from_utf8_lossy(&a).into_owned()));
     }
     let mut out = "no-response";
-    for (method, authority, path) in [("CONNECT", "_check", None), ("GET", "_udp2", Some("/")), ("CONNECT", "noport.c20.test", None), ("GET", "m.t", Some("/speed/1mb.bim"))] {
+    for (method, authority, path) in [("CONNECT", "_check", None), ("CONNECT", canary_authority.as_str(), None), ("GET", "_udp2", Some("/")), ("CONNECT", "noport.c20.test", None), ("GET", "m.t", Some("/speed/1mb.bim"))] {
         let Ok(id) = cl.request(method, authority, path, &headers, method == "GET") else { continue };
         let r = cl.response(id, Duration::from_millis(1500), 4096, None).await;
         if let Some(s) = r.status {
@@ -622,12 +626,12 @@ fn run_scn(sc: &Scn) -> Result<(&'static str, usize, Vec<Violation>), Violation>
     }
 }
 
-fn run_tls(which: &str, auth: &str) -> Result<(&'static str, usize, Vec<Violation>), Violation> {
-    let case = json!({"kind":"tls","sni":which,"auth":auth});
+fn run_tls(which: &str, auth: &str, connect: bool) -> Result<(&'static str, usize, Vec<Violation>), Violation> {
+    let case = json!({"kind":"tls","sni":which,"auth":auth,"connect":connect});
     let _g = watch::enter(format!("C20:wedged:tls:{which}"), case.to_string());
     logcap::begin();
     let (w, a) = (which.to_string(), auth.to_string());
-    let r = super::guarded(|| rt::run_real(async move { tls_scenario(&w, &a).await }));
+    let r = super::guarded(|| rt::run_real(async move { tls_scenario(&w, &a, connect).await }));
     let recs = logcap::end();
     match r {
         Err(p) => Err(Violation::new("C20:machinery", format!("scenario panicked: {p}"), case)),
@@ -678,16 +682,19 @@ pub fn run(tier: Tier) -> i32 {
     let mut tls_cases = vec![];
     for w in TLS_SNIS {
         for a in AUTHS {
-            tls_cases.push((w, a));
+            tls_cases.push((w, a, false));
+            if matches!(a, "valid" | "absent") {
+                tls_cases.push((w, a, true));
+            }
         }
     }
     let r2 = sweep_dyn(tls_cases.len() as u64, 1, Duration::from_secs(600), rt::workers(), |i| {
-        let (w, a) = tls_cases[i as usize];
-        let (o, n, viol) = run_tls(w, a)?;
+        let (w, a, connect) = tls_cases[i as usize];
+        let (o, n, viol) = run_tls(w, a, connect)?;
         records.fetch_add(n as u64, std::sync::atomic::Ordering::Relaxed);
         let leaked = !viol.is_empty();
         all_viol.lock().unwrap().extend(viol);
-        Ok(Cow::Owned(format!("tls:{w}:{o}{}", if leaked { ":leak" } else { "" })))
+        Ok(Cow::Owned(format!("tls:{w}:{}{o}{}", if connect { "connect:" } else { "" }, if leaked { ":leak" } else { "" })))
     });
     rep.add("evaluations", r2.evaluations);
     rep.add("distinct_nontrivial", r2.classes.len() as u64);
@@ -755,7 +762,7 @@ pub fn replay(case: &serde_json::Value) -> Result<(), Violation> {
         }
         Some("quic") => run_quic(QUIC_SNIS.iter().find(|s| Some(**s) == case["sni"].as_str()).ok_or_else(bad)?, AUTHS.iter().find(|s| Some(**s) == case["auth"].as_str()).ok_or_else(bad)?)?.2,
         Some("startup") => run_startup(STARTUPS.iter().find(|s| Some(**s) == case["which"].as_str()).ok_or_else(bad)?)?.2,
-        Some("tls") => run_tls(TLS_SNIS.iter().find(|s| Some(**s) == case["sni"].as_str()).ok_or_else(bad)?, AUTHS.iter().find(|s| Some(**s) == case["auth"].as_str()).ok_or_else(bad)?)?.2,
+        Some("tls") => run_tls(TLS_SNIS.iter().find(|s| Some(**s) == case["sni"].as_str()).ok_or_else(bad)?, AUTHS.iter().find(|s| Some(**s) == case["auth"].as_str()).ok_or_else(bad)?, case["connect"].as_bool().unwrap_or(false))?.2,
         _ => return Err(bad()),
     };
     match viol.into_iter().min_by(|a, b| a.signature.cmp(&b.signature)) {
